@@ -302,7 +302,7 @@ func (e2eFamily) Gen(n int, seed int64, mode, tier string) []interface{} {
 		case "lifecycle":
 			// C11 (and the refusal part of C16): sessions with subscriptions ending for one of the
 			// causes at a random point; idle periods are pings / nothing; 1-2 nodes with gossip
-			nodes := 1 + rng.Intn(2)
+			nodes := 1 + rng.Intn(3)
 			s := newScript(rng, nodes)
 			s.connect(0, "watch", "c-watch", "", 60, nil)
 			s.sub("watch", []string{"#"}, []int{0})
@@ -347,9 +347,12 @@ func (e2eFamily) Gen(n int, seed int64, mode, tier string) []interface{} {
 			if nodes > 1 {
 				s.gossipAll()
 				if rng.Intn(2) == 0 {
-					// node 1 fails; node 0 cleans up after it; a third party (node 1's own view is irrelevant)
+					// node 1 fails; node 0 cleans up after it and tells the others
 					s.add(e2eOp{Op: "peer_leave", N: 0, Src: 1})
 					s.pub("watch", "x/y", "after-failure", 0, false)
+					if nodes > 2 {
+						s.add(e2eOp{Op: "gossip", Src: 0, N: 2})
+					}
 				}
 			}
 			s.checks()
@@ -459,7 +462,7 @@ func (e2eFamily) Gen(n int, seed int64, mode, tier string) []interface{} {
 				s.connect(rng.Intn(nodes), "same-id-other-tenant", "c-dying", "tq", 60, nil)
 				s.gossipAll()
 			}
-			switch e := rng.Intn(5); {
+			switch e := rng.Intn(7); {
 			case e == 0:
 				s.add(e2eOp{Op: "eof", C: "dying"})
 			case e == 1:
